@@ -2,6 +2,7 @@ package checks
 
 import (
 	"fmt"
+	"go/constant"
 	"go/token"
 	"go/types"
 	"sort"
@@ -19,30 +20,30 @@ func init() {
 
 // Functions that may read comment text, with the reason (annotation parsers that filter on a marker).
 var commentReaders = map[string]string{
-	"linter.(*ignore).SetupStatement":         "falco-ignore directives (parseIgnoreComment matches the directive word)",
-	"linter.(*ignore).TeardownStatement":      "falco-ignore directives",
-	"linter.(*ignore).SetupBlockStatement":    "falco-ignore directives",
-	"linter.(*ignore).TeardownBlockStatement": "falco-ignore directives",
-	"linter.parseCustomLinterCall":            "@plugin: annotations (HasPrefix \"@\")",
-	"linter.getSubroutineCallScope":           "@scope / @recv … annotations through ast.Comments.Annotations (CutPrefix \"@\")",
-	"linter.getFileLevelScope":                "@scope annotation of a snippet file",
-	"linter.(*Linter).lintFastlyBoilerPlateMacro": "#FASTLY <scope> macro comments",
-	"linter.hasFastlyBoilerPlateMacro":        "#FASTLY <scope> macro comments",
-	"interpreter.(*Interpreter).ProcessBlockStatement": "@process mark of the debugger/tester (findProcessMark)",
-	"interpreter.(*Interpreter).ProcessSubroutine":     "@process mark (findProcessMark)",
+	"linter.(*ignore).SetupStatement":                      "falco-ignore directives (parseIgnoreComment matches the directive word)",
+	"linter.(*ignore).TeardownStatement":                   "falco-ignore directives",
+	"linter.(*ignore).SetupBlockStatement":                 "falco-ignore directives",
+	"linter.(*ignore).TeardownBlockStatement":              "falco-ignore directives",
+	"linter.parseCustomLinterCall":                         "@plugin: annotations (HasPrefix \"@\")",
+	"linter.getSubroutineCallScope":                        "@scope / @recv … annotations through ast.Comments.Annotations (CutPrefix \"@\")",
+	"linter.getFileLevelScope":                             "@scope annotation of a snippet file",
+	"linter.(*Linter).lintFastlyBoilerPlateMacro":          "#FASTLY <scope> macro comments",
+	"linter.hasFastlyBoilerPlateMacro":                     "#FASTLY <scope> macro comments",
+	"interpreter.(*Interpreter).ProcessBlockStatement":     "@process mark of the debugger/tester (findProcessMark)",
+	"interpreter.(*Interpreter).ProcessSubroutine":         "@process mark (findProcessMark)",
 	"interpreter.(*Interpreter).ProcessFunctionSubroutine": "@process mark (findProcessMark)",
-	"linter.annotations":                       "collects lines starting with \"@\" (TrimLeft + HasPrefix \"@\"), used by the scope annotation readers",
-	"interpreter.(*Interpreter).extractBoilerplateMacro": "#FASTLY <scope> macro comments",
-	"interpreter.hasFastlyBoilerplateMacro":    "#FASTLY <scope> macro comments",
-	"interpreter.findProcessMark":              "@process mark",
-	"tester.getTestMetadata":                   "@scope/@suite/@skip/@tag annotations of test subroutines",
-	"debugger.(*Debugger).Run":                 "@debugger breakpoint mark",
-	"debugger.hasDebuggerMark":                 "@debugger breakpoint mark",
+	"linter.annotations":                                   "collects lines starting with \"@\" (TrimLeft + HasPrefix \"@\"), used by the scope annotation readers",
+	"interpreter.(*Interpreter).extractBoilerplateMacro":   "#FASTLY <scope> macro comments",
+	"interpreter.hasFastlyBoilerplateMacro":                "#FASTLY <scope> macro comments",
+	"interpreter.findProcessMark":                          "@process mark",
+	"tester.getTestMetadata":                               "@scope/@suite/@skip/@tag annotations of test subroutines",
+	"debugger.(*Debugger).Run":                             "@debugger breakpoint mark",
+	"debugger.hasDebuggerMark":                             "@debugger breakpoint mark",
 }
 
 func runC09(c *core.Ctx) {
-	c.Explanation = "Who-may-decide-on-comments, decided on SSA: (cmt.decide) in parser, linter, interpreter and tester no value produced by a comment-bearing ast renderer (String() methods of node kinds that print Leading/Trailing/Infix comments, computed as a fixpoint, and every dynamic String() on an ast interface) flows — through conversions, concatenation, strings.* helpers and inter-procedurally through string parameters — into a decision: ==/!= comparison, map key, conversion to a named string type such as interpreter.State, slices.Contains / strings.HasPrefix-style predicates; flows into messages are fine; (cmt.readers) comment slots (Meta.Leading/Trailing/Infix, Comment.Value, Parenthesis*Comments) are read outside ast/parser/formatter/tester-syntax/codec only by the enumerated annotation parsers (one reason each), so ordinary comment text can reach no other code; (cmt.layout) layout fields (PreviousEmptyLines, Nest, EndLine, EndPosition, PrefixedLineFeed) are never part of a branch condition in linter or interpreter. (cmt.scan) the scanners of block and line comments consume exactly one character on every path around their loop, so no character is skipped as the possible start of the terminator (a comment ending in `**/` ends there and does not swallow the code behind it). Necessary for inertness of comments for all programs and all decorations at once."
-	c.NotCovered = []string{"the lexer's treatment of whitespace inside tokens (juxtaposition across lines)", "that each annotation parser filters on its marker before using the text (reviewed by hand, listed)", "Token.Line/Position in decisions (locations are allowed to differ)"}
+	c.Explanation = "Who-may-decide-on-comments, decided on SSA: (cmt.decide) in parser, linter, interpreter and tester no value produced by a comment-bearing ast renderer (String() methods of node kinds that print Leading/Trailing/Infix comments, computed as a fixpoint, and every dynamic String() on an ast interface) flows — through conversions, concatenation, strings.* helpers and inter-procedurally through string parameters — into a decision: ==/!= comparison, map key, conversion to a named string type such as interpreter.State, slices.Contains / strings.HasPrefix-style predicates; flows into messages are fine; (cmt.readers) comment slots (Meta.Leading/Trailing/Infix, Comment.Value, Parenthesis*Comments) are read outside ast/parser/formatter/tester-syntax/codec only by the enumerated annotation parsers (one reason each), so ordinary comment text can reach no other code; (cmt.layout) layout fields (PreviousEmptyLines, Nest, EndLine, EndPosition, PrefixedLineFeed) and the line and column of a token are never part of a branch condition in linter or interpreter. (cmt.macro) every test for the `#FASTLY` macro in linter and simulator is strings.HasPrefix applied directly to the text of one comment ((*ast.Comment).String()), with a prefix that starts with the literal `#FASTLY `: no trimming, case folding or joining of several comments, so an ordinary comment cannot be taken for the macro and both sides accept the same spelling; (cmt.scan) the scanners of block and line comments consume exactly one character on every path around their loop, so no character is skipped as the possible start of the terminator (a comment ending in `**/` ends there and does not swallow the code behind it). Necessary for inertness of comments for all programs and all decorations at once."
+	c.NotCovered = []string{"the lexer's treatment of whitespace inside tokens (juxtaposition across lines)", "that each annotation parser filters on its marker before using the text (reviewed by hand, listed)", "locations used as map keys or identifiers (coverage ids are built from line and column)"}
 	prog := c.Prog
 	u := newAstUniverse(prog)
 	if u == nil {
@@ -150,8 +151,8 @@ func runC09(c *core.Ctx) {
 	scopeFuncs := prog.ModuleFuncs("parser", "linter", "interpreter", "tester")
 	// inter-procedural taint of string parameters
 	tainted := map[*ssa.Parameter]string{}
-	taintedField := map[*types.Var]string{}   // struct fields (field-based heap abstraction) that hold such a rendering
-	taintedRet := map[*ssa.Function]string{}  // functions returning such a rendering (as a string or inside a slice)
+	taintedField := map[*types.Var]string{}  // struct fields (field-based heap abstraction) that hold such a rendering
+	taintedRet := map[*ssa.Function]string{} // functions returning such a rendering (as a string or inside a slice)
 	var srcOf func(v ssa.Value) string
 	srcOfDepth := 0
 	srcOf = func(v ssa.Value) string {
@@ -490,8 +491,13 @@ func runC09(c *core.Ctx) {
 	}
 	c.Floor("cmt.readers", 14)
 
+	// ---- cmt.macro: the #FASTLY macro is recognised on one comment, untransformed
+	checkMacroDetectors(c)
+
 	// ---- cmt.layout
-	layout := map[string]bool{"Meta.PreviousEmptyLines": true, "Meta.Nest": true, "Meta.EndLine": true, "Meta.EndPosition": true, "Comment.PrefixedLineFeed": true, "Comment.PreviousEmptyLines": true}
+	layout := map[string]bool{"Meta.PreviousEmptyLines": true, "Meta.Nest": true, "Meta.EndLine": true, "Meta.EndPosition": true, "Comment.PrefixedLineFeed": true, "Comment.PreviousEmptyLines": true,
+		// where a token stands: locations may be reported, they may not decide anything
+		core.ModPath + "/token.Token.Line": true, core.ModPath + "/token.Token.Position": true}
 	nConds := 0
 	for _, fn := range prog.ModuleFuncs("linter", "interpreter") {
 		for _, b := range fn.Blocks {
@@ -614,4 +620,78 @@ func messageUse(u string) bool {
 		return true
 	}
 	return false
+}
+
+// checkMacroDetectors (cmt.macro): the `#FASTLY <scope>` macro is the one comment whose presence changes what linter
+// and simulator do. An ordinary comment must not be taken for it: every strings.HasPrefix whose prefix is built from a
+// constant containing "FASTLY" gets, as its subject, the untransformed text of a single comment, and the constant
+// starts with "#FASTLY ". (The simulator used to trim comment signs and fold the case first: `// Fastly recv processing`
+// then embedded the snippets.)
+func checkMacroDetectors(c *core.Ctx) {
+	prog := c.Prog
+	n := 0
+	for _, fn := range prog.ModuleFuncs("linter", "interpreter") {
+		k := 0
+		for _, b := range fn.Blocks {
+			for _, in := range b.Instrs {
+				call, ok := in.(*ssa.Call)
+				if !ok {
+					continue
+				}
+				cal := call.Common().StaticCallee()
+				if cal == nil || cal.Pkg == nil || cal.Pkg.Pkg.Path() != "strings" || len(call.Common().Args) != 2 {
+					continue
+				}
+				switch cal.Name() {
+				case "HasPrefix", "Contains", "EqualFold", "HasSuffix", "Index":
+				default:
+					continue
+				}
+				// a constant with FASTLY in the data slice of the pattern argument
+				lit := ""
+				for x := range core.BackSlice(call.Common().Args[1]) {
+					if kc, ok := x.(*ssa.Const); ok && kc.Value != nil && kc.Value.Kind() == constant.String && strings.Contains(strings.ToUpper(constant.StringVal(kc.Value)), "FASTLY") {
+						lit = constant.StringVal(kc.Value)
+					}
+				}
+				if lit == "" {
+					continue
+				}
+				// only detectors that look at comments
+				fromComment, direct := false, false
+				for x := range core.BackSlice(call.Common().Args[0]) {
+					if cc, ok := x.(*ssa.Call); ok {
+						if f := cc.Common().StaticCallee(); f != nil && f.Name() == "String" && f.Signature.Recv() != nil {
+							switch core.NamedTypeName(derefType(f.Signature.Recv().Type())) {
+							case "Comment", "Comments":
+								fromComment = true
+							}
+						}
+					}
+				}
+				if !fromComment {
+					continue
+				}
+				if cc, ok := call.Common().Args[0].(*ssa.Call); ok {
+					if f := cc.Common().StaticCallee(); f != nil && f.Name() == "String" && f.Signature.Recv() != nil && core.NamedTypeName(derefType(f.Signature.Recv().Type())) == "Comment" {
+						direct = true
+					}
+				}
+				n++
+				k++
+				key := fmt.Sprintf("%s|macro test#%d", core.FnName(fn), k)
+				switch {
+				case cal.Name() != "HasPrefix":
+					c.Report("cmt.macro", key, in.Pos(), fmt.Sprintf("%s looks for the FASTLY macro with strings.%s: a comment that merely mentions it is taken for the macro", core.FnName(fn), cal.Name()))
+				case !direct:
+					c.Report("cmt.macro", key, in.Pos(), fmt.Sprintf("%s tests for the #FASTLY macro on a transformed or joined comment text (trimmed, case-folded, several comments concatenated) instead of the text of one comment: an ordinary comment such as `// Fastly recv processing` or a comment in front of the macro changes whether the snippets are embedded", core.FnName(fn)))
+				case !strings.HasPrefix(lit, "#FASTLY "):
+					c.Report("cmt.macro", key, in.Pos(), fmt.Sprintf("%s accepts the macro with the prefix %q, which is not the documented `#FASTLY <scope>` form the other side accepts", core.FnName(fn), lit))
+				default:
+					c.Discharge("cmt.macro", key, in.Pos(), "HasPrefix on the text of one comment with the literal prefix `#FASTLY `")
+				}
+			}
+		}
+	}
+	c.Floor("cmt.macro", 4)
 }
